@@ -599,3 +599,23 @@ M('C19', 'markers-written-before-unpack', 'mithril-client/src/cardano_database_c
         let download_result = self""", """        create_bootstrap_node_files(&self.logger, target_dir, &cardano_database_snapshot.network)?;
         // Return the result later so unexpected file removal is always run
         let download_result = self""", ['precedes create_bootstrap_node_files'], 'markers written first: an archive entry unpacked later overwrites them')
+
+# ---------------------------------------------------------------- C20 after seeds C20-1 / C20-2 (other role sites)
+M('C20', 'signers-swapped-in-transition', 'mithril-signer/src/runtime/state_machine.rs',
+  """                    signer_registrations.current_signers,
+                    signer_registrations.next_signers,
+                )
+                .await
+                .map(CycleOutcome::TransitionTo)""", """                    signer_registrations.next_signers,
+                    signer_registrations.current_signers,
+                )
+                .await
+                .map(CycleOutcome::TransitionTo)""", ['current_signers'], 'current and next signers exchanged on the way to the epoch service')
+M('C20', 'discriminants-from-registration-config', 'mithril-signer/src/services/epoch_service.rs',
+  """        let allowed_discriminants = mithril_network_configuration
+            .configuration_for_aggregation""", """        let allowed_discriminants = mithril_network_configuration
+            .configuration_for_registration""", ['allowed_discriminants'], 'signing configuration of the wrong epoch')
+M('C20', 'settings-recorded-for-node-epoch', 'mithril-signer/src/runtime/state_machine.rs',
+  '.inform_epoch_settings(aggregator_signer_registration_epoch, mithril_network_configuration, current_signer,  next_signer)',
+  '.inform_epoch_settings(epoch, mithril_network_configuration, current_signer,  next_signer)',
+  ['inform_epoch_settings(epoch)'], 'epoch settings stored under the node epoch')
